@@ -628,42 +628,95 @@ Fixpoint set_nth_b (l : list bool) (p : nat) (b : bool) : list bool :=
   | h :: t, S q => h :: set_nth_b t q b
   end.
 
-(* Judging a node trace op by op; `inb` is which peers have an inbound substream, known from
-   the ops alone.  Events may only come from complete decodable frames on an open substream and
-   must be the ones the frame denotes, with every block certified; everything written must be
-   a well-formed message within the limits. *)
-Fixpoint node_ok (tab : list oentry) (con inb : list bool) (ops : list nop)
+(* what a list of messages carries, as runs of encoded entries (kind-tagged), adjacent equal
+   runs merged across message boundaries: the split into messages is forgotten *)
+Fixpoint merge_runs (l : list (N * list N)) : list (N * list N) :=
+  match l with
+  | [] => []
+  | (k, e) :: t =>
+      match merge_runs t with
+      | (k', e') :: r => if nlist_eqb e e' then (k + k', e') :: r else (k, e) :: (k', e') :: r
+      | [] => [(k, e)]
+      end
+  end.
+
+Definition omsg_runs (m : omsg) : list (N * list N) :=
+  match m with
+  | ORequest ws =>
+      map (fun r : N * (cid * want_type) =>
+             (fst r, 1 :: enc_bytes (cid_to_bytes (fst (snd r))) ++ [1; 0; want_code (snd (snd r)); 0]))
+          (rle want_eqb ws)
+  | OPresences l =>
+      map (fun r : N * spres =>
+             (fst r, 2 :: enc_bytes (cid_to_bytes (sp_cid (snd r))) ++ [presence_code (sp_type (snd r))]))
+          (rle spres_eqb l)
+  | OBlocks l =>
+      map (fun r : N * sblock =>
+             (fst r, 3 :: sb_id (snd r) :: enc_bytes (sb_prefix (snd r)) ++ [sb_dlen (snd r); 1]))
+          (rle sblock_eqb l)
+  end.
+
+Definition wmsg_runs (w : wmsg) : list (N * list N) :=
+  match w with
+  | WRequest _ es _ =>
+      map (fun ke : N * wl_entry =>
+             let e := snd ke in
+             (fst ke, 1 :: enc_bytes (we_block e) ++
+                      [we_priority e; b2n (we_cancel e); we_wanttype e; b2n (we_senddonthave e)])) es
+  | WPresences _ ps =>
+      map (fun kbt : N * (list N * N) => (fst kbt, 2 :: enc_bytes (fst (snd kbt)) ++ [snd (snd kbt)])) ps
+  | WBlocks _ bs =>
+      map (fun kb : N * (N * list N * N * N) =>
+             let b := snd kb in
+             (fst kb, 3 :: fst (fst (fst b)) :: enc_bytes (snd (fst (fst b))) ++ [snd (fst b); snd b])) bs
+  end.
+
+Definition run_eqb (a b : N * list N) : bool := (fst a =? fst b) && nlist_eqb (snd a) (snd b).
+
+(* lossless, in order, exactly once: what was written carries exactly what the loop had to
+   write at this point (the model's state says what that is), however it is cut into messages *)
+Definition content_ok (done : list omsg) (ws : list wmsg) : bool :=
+  list_eqb run_eqb (merge_runs (flat_map wmsg_runs ws)) (merge_runs (flat_map omsg_runs done)).
+
+(* Judging a node trace op by op; `con`/`inb` is which peers have a connection / an inbound
+   substream, known from the ops alone; `st` is the model's state of the loop, used for one
+   question only: which entries had to be written by this operation.  Events may only come from
+   complete decodable frames on an open substream and must be the ones the frame denotes, with
+   every block certified; everything written must be a well-formed message within the limits,
+   and the messages together must carry exactly the entries due, once and in order. *)
+Fixpoint node_ok (tab : list oentry) (st : list pstate) (con inb : list bool) (ops : list nop)
          (outs : list (list (N * event payload) * list wmsg * N)) : bool :=
   match ops, outs with
   | [], [] => true
   | o :: ops', (evs, ws, part) :: outs' =>
-      forallb wmsg_ok ws &&
+      let '(st', (_, (done, _))) := node_step payload (digest_of tab) MB MM st (nop_pev o) in
+      forallb wmsg_ok ws && content_ok done ws &&
       match o with
       | NInOpen p =>
           match evs, ws with [], [] => (part =? 0) | _, _ => false end &&
-          node_ok tab con (if nth (N.to_nat p) con false then set_nth_b inb (N.to_nat p) true else inb) ops' outs'
+          node_ok tab st' con (if nth (N.to_nat p) con false then set_nth_b inb (N.to_nat p) true else inb) ops' outs'
       | NInBad p =>
           (* no partial delivery *)
           match evs, ws with [], [] => (part =? 0) | _, _ => false end &&
-          node_ok tab con (set_nth_b inb (N.to_nat p) false) ops' outs'
+          node_ok tab st' con (set_nth_b inb (N.to_nat p) false) ops' outs'
       | NInFrame p m =>
           match ws with [] => (part =? 0) | _ => false end &&
           (if nth (N.to_nat p) inb false
            then forallb (fun pe : N * event payload => (fst pe =? p) && event_certified tab m (snd pe)) evs &&
                 list_eqb event_eqb (map snd evs) (msg_events payload (digest_of tab) m)
            else match evs with [] => true | _ => false end) &&
-          node_ok tab con inb ops' outs'
+          node_ok tab st' con inb ops' outs'
       | NSend _ _ | NOutOpen _ _ =>
-          match evs with [] => true | _ => false end && node_ok tab con inb ops' outs'
+          match evs with [] => true | _ => false end && node_ok tab st' con inb ops' outs'
       | NConnClose p =>
           match evs, ws with [], [] => (part =? 0) | _, _ => false end &&
-          node_ok tab (set_nth_b con (N.to_nat p) false) (set_nth_b inb (N.to_nat p) false) ops' outs'
+          node_ok tab st' (set_nth_b con (N.to_nat p) false) (set_nth_b inb (N.to_nat p) false) ops' outs'
       | NOutFail _ | NOutSet _ _ | NKill _ | NDialFail _ | NForce _ _ =>
-          match evs, ws with [], [] => (part =? 0) | _, _ => false end && node_ok tab con inb ops' outs'
+          match evs, ws with [], [] => (part =? 0) | _, _ => false end && node_ok tab st' con inb ops' outs'
       | NConnect p =>
-          (* a connection may release queued actions *)
-          match evs with [] => true | _ => false end &&
-          node_ok tab (set_nth_b con (N.to_nat p) true) inb ops' outs'
+          (* a connection only turns a parked dial into a substream request *)
+          match evs, ws with [], [] => (part =? 0) | _, _ => false end &&
+          node_ok tab st' (set_nth_b con (N.to_nat p) true) inb ops' outs'
       end
   | _, _ => false
   end.
@@ -752,7 +805,7 @@ Definition prop_ok (case trace : list N) : bool :=
       end
   | Some (CNode ops tab), 4 :: n :: body =>
       match pall (prep (length ops) p_opout) body with
-      | Some outs => (n =? N.of_nat (length ops)) && node_ok tab [true; true; true] [false; false; false] ops outs
+      | Some outs => (n =? N.of_nat (length ops)) && node_ok tab [ps_init; ps_init; ps_init] [true; true; true] [false; false; false] ops outs
       | None => false
       end
   | Some (CPres mm l), 5 :: body =>
